@@ -7,15 +7,31 @@
   the payloader and of the RFC 6184 encoder are of that form (see Props/C10: `c10_frames_*`).
 -/
 import Rtp.Proofs.H264Resync
+import Rtp.Proofs.H264Frames
+import Rtp.Proofs.H264History
 import Rtp.Model.H264Obs
 namespace Rtp.Props.C15.H264
-open Rtp Rtp.Model.H264 Rtp.Model.H264.Obs Rtp.Pred Rtp.Pred.C15H264 Rtp.Proofs.H264
+open Rtp Rtp.Model.H264 Rtp.Model.H264.Obs Rtp.Pred Rtp.Pred.C15H264 Rtp.Proofs.H264 Rtp.Spec.Rfc6184
 
 /-- for ALL receiver states `st` (the FU-A buffer left by whatever came before) -/
 theorem c15_h264 (avc : Bool) (st : Bytes) (frame : List Bytes)
     (h : selfStarting false frame = true) :
     (run avc st frame).1 = (run avc [] frame).1 :=
   run_selfStarting avc frame false st [] h (by simp)
+
+/-- frames of the independent RFC 6184 encoder: every legal plan, after any history -/
+theorem c15_h264_encoded (avc : Bool) (st : Bytes) (plan : List Item) (hw : plan.all Item.wf = true) :
+    (run avc st (encode plan)).1 = (run avc [] (encode plan)).1 :=
+  c15_h264 avc st _ (parse_selfStarting _ plan (parse_encode plan hw))
+
+/-- frames of pion's payloader: all payloads of any history of calls (MTU ≥ 3, well-formed units,
+    STAP-A on or off) on a new H264Payloader, after any receiver history -/
+theorem c15_h264_payloader (disable avc : Bool) (st : Bytes) (calls : List C10.RtCall)
+    (hw : ∀ c ∈ calls, callWF c) :
+    (run avc st (fragsCalls disable {} calls)).1 = (run avc [] (fragsCalls disable {} calls)).1 := by
+  obtain ⟨plan, e, w, _, _⟩ := history_plan disable calls hw
+  rw [e]
+  exact c15_h264_encoded avc st plan w
 
 /-- in the form the harness checks: prehistory `pre` (arbitrary payloads), then the frame -/
 theorem c15_h264_pred (i : Input) : C15H264.ok i (c15Model i) = true := by
